@@ -225,6 +225,17 @@ def run_impl(cfg):
     pyrandom.seed(cfg["seed"] + 1)            # the global generator used by real operators
     tb = base.Toolbox()
     tb.register("evaluate", wrap_evaluate(p))
+    if cfg.get("map") == "eager":
+        tb.register("map", lambda f, xs: [f(x) for x in xs])     # an order preserving map that is not lazy
+    elif cfg.get("map") == "chunked":
+        # evaluates in two chunks (as a pool would) but returns the results in submission order
+        def cmap(f, xs):
+            xs = list(xs)
+            h = len(xs) // 2
+            second = [f(x) for x in xs[h:]]
+            first = [f(x) for x in xs[:h]]
+            return first + second
+        tb.register("map", cmap)
     tree_mode = cfg.get("tree", False)
     if tree_mode:
         pset, codes = cfg["_pset"], cfg["_codes"]
@@ -481,6 +492,9 @@ def oracle(cfg, obs):
                 expect = []
             else:
                 expect = [(u, g) for (u, g, f) in var[0][2] if f is None]
+        if cfg.get("map") == "chunked":
+            # a map that schedules the calls differently: only "exactly once each, no other" is claimed
+            calls, expect = sorted(calls), sorted(expect)
         if calls != expect:
             bad.append("gen %d: evaluate was called on %r, the new/changed individuals are %r" % (gen, calls, expect))
         if len(set(u for u, _ in calls)) != len(calls):
@@ -634,6 +648,7 @@ def coq_term(cfg, obs):
 # configuration generators (all guards of the real code respected, see design_notes/C03.md)
 # --------------------------------------------------------------------------------------------
 PROBS = [0.0, 0.25, 0.5, 0.75, 1.0]
+DUP_SIG = "C03.duplicate_invalid_object_evaluated_twice"
 
 
 def rand_evp(rng):
@@ -655,6 +670,7 @@ def base_cfg(rng, kind, n=None, ngen=None):
            "genos": [[rng.randint(0, 3) for _ in range(rng.randint(1, 5))] for _ in range(n)],
            "preeval": [rng.random() < rng.choice([0.0, 0.5, 1.0]) for _ in range(n)],
            "hofsize": rng.choice([1, 1, 2, 3]), "newobj": rng.random() < 0.3,
+           "map": rng.choice(["default", "default", "eager"]),
            "ops": rng.choice(["scripted", "scripted", "real"])}
     if cfg["ops"] == "real":
         cfg["genos"] = [[rng.randint(0, 1) for _ in range(rng.randint(2, 6))] for _ in range(n)]
@@ -780,6 +796,13 @@ def main(run):
             run.oracle_violation("the loop raised " + obs["raised"], pub, observed=obs["raised"])
             return
         bad = oracle(cfg, obs)
+        if cfg.get("dup_invalid"):
+            # known finding: the same unevaluated object listed twice in the caller's population is
+            # evaluated once per occurrence; anything else going wrong on this input is a real violation
+            known = [b for b in bad if "evaluated more than once" in b]
+            bad = [b for b in bad if "evaluated more than once" not in b]
+            if known:
+                run.oracle_violation(known[0], pub, signature=DUP_SIG, observed=known)
         if bad:
             run.oracle_violation(bad[0], pub, observed=bad[:5])
         if corr:
@@ -789,6 +812,14 @@ def main(run):
     # the repaired defect, replayed on every run
     do({"kind": "gu", "evp": [1, 0, 7, False], "weights": [1], "seed": 1, "ngen": 0, "n": 0, "genos": [], "preeval": [],
         "gu_sizes": []})
+
+    # the known finding, replayed on every run (witness of known_findings/C03.json) in all four loops
+    for kind in ("simple", "plus", "comma", "harm"):
+        cfg = {"kind": kind, "evp": [1, 0, 7, False], "weights": [1], "seed": 3, "ngen": 0, "n": 2,
+               "genos": [[1, 2], [1, 2]], "preeval": [False, False], "alias": [(0, 1)], "dup_invalid": True,
+               "mu": 2, "lam": 2, "cxpb": 0.0, "mutpb": 0.0, "sel": "random",
+               "alpha": 0.05, "beta": 10, "gamma": 0.25, "rho": 0.9, "nbr": 2, "mincutoff": 20}
+        do(cfg)
 
     # ---- exhaustive small grid ----
     for kind in ("simple", "plus", "comma", "harm"):
@@ -817,6 +848,12 @@ def main(run):
         do(gen_mu(rng, "comma"))
         do(gen_gu(rng))
         do(gen_harm(rng))
+    # a map that evaluates out of submission order but returns results in order (oracle only: the
+    # model's call log is in submission order, which the statement does not claim)
+    for _ in range(run.scale(15, 150)):
+        cfg = rng.choice([gen_simple, lambda r: gen_mu(r, "plus"), lambda r: gen_mu(r, "comma"), gen_gu, gen_harm])(rng)
+        cfg["map"] = "chunked"
+        do(cfg, corr=False)
     # without a hall of fame (oracle only: the model always carries one)
     for _ in range(run.scale(10, 100)):
         cfg = rng.choice([gen_simple, lambda r: gen_mu(r, "plus"), lambda r: gen_mu(r, "comma"), gen_gu, gen_harm])(rng)
